@@ -9,6 +9,7 @@ import types
 import z3
 
 from segvc.core import BOOL, CLASSES, INT, ArrT, DequeT, H, RefT, Sym, TupT, register_class
+from segvc.interp import Builtin
 from segvc.lib import CANCELLED, EXC, PENDING, RESULT
 from segvc.unit import Case, ClassSpec, Contract, LemmaUnit, LoopSpec, MethodUnit
 
@@ -456,6 +457,42 @@ class LockedUnit(LockUnit):
     contract = LOCKED
 
 
+class _TaskInfo:
+    """value of `AsyncIOTaskInfo(task)`: the task it was built from"""
+
+    def __init__(self, task):
+        self.task = task
+
+
+class StatisticsUnit(LockUnit):
+    """`Lock.statistics()`: (locked, owner, tasks_waiting) report the true state; nothing changes"""
+
+    method = "statistics"
+    contract = None
+    contracts = {"Lock.locked": LOCKED}
+    globals = {
+        "LockStatistics": Builtin("LockStatistics", lambda ip, *a: tuple(a)),
+        "AsyncIOTaskInfo": Builtin("AsyncIOTaskInfo", lambda ip, t: _TaskInfo(ip.term(t, INT))),
+    }
+
+    def on_exit(self, ip, pre, a, exc, ret):
+        s = a.self
+        ok = exc is None and isinstance(ret, tuple) and len(ret) == 3
+        ip.ctx.oblige("Lock.statistics/post:returns_three_fields", z3.BoolVal(ok), "post")
+        if ok:
+            q = queue(pre, s)
+            own = owner(pre, s)
+            info = ret[1]
+            if isinstance(info, _TaskInfo):
+                info_ok = z3.And(own != 0, info.task == own)
+            elif info is None:
+                info_ok = own == 0
+            else:
+                info_ok = z3.BoolVal(False)
+            ip.ctx.oblige("Lock.statistics/post:reports_the_true_state", z3.And(ip.term(ret[0], BOOL) == (own != 0), info_ok, ip.term(ret[2], INT) == q.hi - q.lo), "post")
+            ip.ctx.oblige("Lock.statistics/post:pure", z3.And(lock_fields_unchanged(pre, H(ip.st), s), futures_unchanged(pre, H(ip.st))), "post")
+
+
 class InitUnit(LockUnit):
     """the constructor establishes the invariant (which is therefore satisfiable)"""
 
@@ -500,4 +537,4 @@ class EnvCancelFuture(LemmaUnit):
             ip.ctx.oblige(f"{self.name}/env:{n}", t, "env")
 
 
-UNITS = [InitUnit, AcquireUnit, ReleaseUnit, AcquireNowaitUnit, LockedUnit, EnvCancelFuture, RelyStable]
+UNITS = [InitUnit, AcquireUnit, ReleaseUnit, AcquireNowaitUnit, LockedUnit, StatisticsUnit, EnvCancelFuture, RelyStable]
